@@ -38,8 +38,16 @@ ASSUMPTIONS = [
     "positivity of kernels is assumed, only P(condition) > 0); both are decided on the real run (tags in_fragment_c / in_fragment_x) "
     "AND by the model (driver op idc_star_checked), the two verdicts are part of the correspondence; a failure inside a fragment is a "
     "VIOLATION keyed [IN-FRAGMENT(-X), kind], never a known finding.",
+    "several conditions, one of them exchanged (InFragmentXs, decidable inFragmentXsB): since `fix:` 1834c39 the rule-2 test conditions on "
+    "the OTHER conditions; PROVED (idcstar_exchange_licensed, idcstar_sound_fragment_exchange_multi_partial): whenever line 4 exchanges a "
+    "condition, every outcome is m-separated from it (specification of C04, not the algorithm) in the counterfactual graph without its "
+    "outgoing edges given the other conditions and the self-intervened nodes -- the graphical premise of rule 2; NOT proved: the semantic "
+    "equality for several conditions (rule 2 with a non-empty conditioning set on the noise space), and it is FALSE of the code when a "
+    "remaining condition descends from the exchanged one (open finding exchange:conditions: the remaining conditions keep no subscript; "
+    "pinned by the suite's figure-9a expectation); the harness recomputes the documented test (with the other conditions) independently "
+    "by path enumeration on every exchange it has to explain (kind exchange:not-licensed-by-documented-test, never listed)",
     "outside the two fragments soundness and zero-soundness have NO theorem; IDC* inherits the wrong "
-    "answers of ID* (F10) and adds its own (an exchange made while other conditions remain ignores them; what remains of F11: "
+    "answers of ID* (F10) and adds its own (after an exchange the remaining conditions keep no subscript; what remains of F11: "
     "Expression.conditional also normalises over the variables bound by inner sums of the ID* estimand -- the subscript part of "
     "F11 is repaired by `fix:` a54a0f5): decided by correspondence + exact "
     "evaluation on 8 sampled functional SCMs per case; the known wrong answers are listed in known_findings.jsonl",
@@ -81,7 +89,10 @@ ASSUMPTIONS = [
     "checked domain (idc_star merges the two dicts, the condition's value silently wins)",
     "a wrong value / wrong Zero is classified by the FIRST step of IDC*'s own chain of claims that an independent exact "
     "evaluation shows to be broken on that input: 'reassociation' (get_new_outcomes_and_conditions changes "
-    "P(outcomes | conditions); only for events with a counterfactual world), 'exchange' (the line-4 exchange changes it; only listed "
+    "P(outcomes | conditions); only for events with a counterfactual world), 'exchange' (the line-4 exchange changes it: "
+    "'exchange:conditions' when it would be right had the remaining conditions -- those not already in a world that sets the exchanged "
+    "variable -- received the new subscript too, the subscript's star taken from the exchanged condition's value when no outcome "
+    "received it; 'exchange:separation' otherwise: repaired by `fix:` 1834c39, no longer listed, 0 of 8014 thorough inputs; only listed "
     "when the exchanging level has at least two conditions -- with a single condition it is the unlisted kind "
     "'exchange-with-a-single-condition:...', i.e. a VIOLATION), 'inherited' (the final id_star call is wrong by "
     "itself: keyed by the C07 finding it shrinks to), 'F11' (numerator right, every name Expression.conditional wrongly "
@@ -1047,12 +1058,12 @@ MANIFEST = {
              "effectiveness, before doing anything else; the model is defined for every fuel, an answer reached with some fuel "
              "is not changed by more fuel; every leaf of a returned estimand is a single-world interventional term (C06 part); "
              "Zero from line 3 (inconsistent joint event) is sound in every compatible functional SCM (by C18's cg_prob); the final division is fully modelled; the line-4 recursion terminates within |conditions| + 1 levels when no name is both an outcome and a condition (idcstar_own_recursion_terminates) and, without an explicit bound, on every input without self-intervened keys even when outcomes and conditions are copies of the same variables (idcstar_terminates_shared_names); after `fix:` b76144c the answer does not depend on the order in which Python iterates the set of re-associated keys (idcstar_reassociation_order_independent for every relabelled event with pairwise different event keys; idcstar_order_independent for the whole recursion on inputs without self-intervened keys: any permutation before the sort gives the same answer); the returned value EQUALS P(outcomes, conditions)/P(conditions) in every compatible functional SCM on the observational no-exchange fragment (idcstar_sound_fragment, via idstar_sound_fragment, the repaired conditional and marginalisation) and on the exchange fragment (idcstar_sound_fragment_exchange: one factual condition to which rule 2 applies, all or no outcomes descending from it; rule 2 of the do-calculus proved for functional SCMs on the noise space, no positivity assumption). Outside these fragments soundness of the returned value and of Zero from inside ID* has NO theorem (it inherits F10 from "
-             "ID* and adds the bound-range part of F11 and an exchange step that ignores the other conditions); the check decides it by correspondence with the real "
+             "ID* and adds the bound-range part of F11 and an exchange step that leaves the remaining conditions un-subscripted); since `fix:` 1834c39 the exchange itself is licensed by the graphical premise of rule 2 given the other conditions (idcstar_exchange_licensed: m-separation in the sense of the C04 specification; idcstar_sound_fragment_exchange_multi_partial on the widened fragment InFragmentXs); the check decides it by correspondence with the real "
              "code plus exact evaluation of P(outcomes, conditions)/P(conditions) on sampled functional SCMs; every wrong answer is "
              "attributed to the first step of IDC*'s chain of claims that exact evaluation shows to be broken (reassociation, "
-             "exchange:conditions, exchange:separation, inherited from ID*, F11) and those steps are listed as open findings -- a wrong answer is "
-             "excused by a listed finding only if the model returns the same wrong answer on that input; four "
-             "small defects were fixed in idc_star.py (0cb6c69, 8a76512, 9f8a537, b76144c: the answer no longer depends on PYTHONHASHSEED, checked in fresh interpreters under several hash seeds) and the subscript part of F11 in dsl.py (a54a0f5)."),
+             "exchange:conditions, inherited from ID*, F11; exchange:separation is repaired) and those steps are listed as open findings -- a wrong answer is "
+             "excused by a listed finding only if the model returns the same wrong answer on that input; five "
+             "small defects were fixed in idc_star.py (0cb6c69, 8a76512, 9f8a537, 1834c39: the rule-2 test conditions on the other conditions, b76144c: the answer no longer depends on PYTHONHASHSEED, checked in fresh interpreters under several hash seeds) and the subscript part of F11 in dsl.py (a54a0f5)."),
     "note": ("Trusted: Lean kernel + standard axioms; hand-written models (ID*, counterfactual graph, d-separation of the sep "
              "family, Expression.conditional) tied to the code by differential testing under all set-iteration orders; the "
              "reading convention of estimands; sampled models (8 per case, P(conditions) > 0)."),
